@@ -335,7 +335,11 @@ func (g *ExprGen) value(allowNil bool) *gtab.GposValueRecord {
 		return nil
 	}
 	v := &gtab.GposValueRecord{}
-	for v.XAdvance == 0 && v.XPlacement == 0 && v.YPlacement == 0 {
+	for try := 0; v.XAdvance == 0 && v.XPlacement == 0 && v.YPlacement == 0; try++ {
+		if try == 3 {
+			v.XAdvance = 10 // an exhausted tape answers "no" to everything
+			break
+		}
 		if t.Chance(1, 2) {
 			v.XAdvance = funit.Int16(t.Range(0, 400) - 200)
 		}
